@@ -171,8 +171,15 @@ def pack_rule(ctx, crate):
                "the three following siblings are compared under `i + 2 < n`" if bound_ok and not any(k > 2 for _, k, _ in seen_bounds) else
                "look-ahead guard is not `i + 2 < n` (bounds seen: %s): a quadruple of full siblings that ends the list is never merged, or entries are read out of bounds" % seen_bounds, at=b.span, kind="N")
     # the skip loop keeps depth-0 cells, partial cells and non-first siblings unmerged
-    conds = [show(d) for d, loc in e.branches if loc[0] == fn]
-    has0 = any("== 0u8" in c for c in conds)
+    # some branch of pack tests the depth of the current cell (result of the decoder) against 0,
+    # whichever way it is written (==, !=, De Morgan'd): merging a base cell would need depth - 1
+    gd = {ev.ret for ev in e.events.values() if ev.callee and ev.callee.endswith("::get_depth")}
+    def depth_like(t):
+        if t in gd: return True
+        if t[0] == 'phi': return any(o in gd for o in e.phi_ops.get(t, ()))
+        return False
+    has0 = any(d[0] == 'op' and d[1] in ('eq', 'ne', 'gt', 'lt', 'ge', 'le') and ((depth_like(d[3]) and d[4] == C('u8', 0)) or (depth_like(d[4]) and d[3] == C('u8', 0)))
+               for d, loc in e.branches if loc[0] == fn)
     ctx.report(clause, "pack:base-cells-never-merged", has0, "the search for a first sibling skips cells with depth == 0", at=b.span, kind="N")
 
 
